@@ -365,8 +365,9 @@ def run(tier, replay=None):
         for _ in range(8 if thorough else 3):
             bv, bst = bootlib.probe(rb)
             stats["boot_shutdown_runs"] = stats.get("boot_shutdown_runs", 0) + 1
+            stats["boot_storm_sockets"] = stats.get("boot_storm_sockets", 0) + bst.get("storm_sockets", 0)
             for what, lim in bv:
-                if "SIGTERM" in what or "did not stop" in what or "did not come up" in what:
+                if "SIGTERM" in what or "did not stop" in what or "did not come up" in what or "no longer serves new connections" in what:
                     violations.append(("server started through narwhal_server::run: " + what, {"boot_limits": lim}))
     if (broken or disagreements) and not violations and not replay:
         log("proof/correspondence broken; extended search")
